@@ -153,6 +153,10 @@ def build_evidence(prop, tier, seed, spec, verdicts, wall, nviol):
     samples = []
     evaluations = 0
     nontrivial = 0
+    states = 0
+    transitions = 0
+    validated = 0
+    proved = set()
     stubs = set()
     solver_s = 0.0
     functions = set(spec.get("functions", []))
@@ -164,6 +168,8 @@ def build_evidence(prop, tier, seed, spec, verdicts, wall, nviol):
             sat_cov = [c for c, s in r.get("covers", {}).items() if s == "SATISFIED"]
             if v in ("ok", "finding") and (sat_cov or src.witness):
                 nontrivial += 1
+            states += 1
+            transitions += r.get("vccs", 0) or r.get("checks", 0)
             stubs.update(r.get("stubs", []))
             solver_s += r.get("solver_s", 0)
             samples.append({"engine": "kani", "harness": src.name, "crate": src.crate, "verdict": v,
@@ -176,20 +182,29 @@ def build_evidence(prop, tier, seed, spec, verdicts, wall, nviol):
         else:
             evaluations += r.get("queries", 0)
             queries += r.get("queries", 0)
-            nontrivial += r.get("nontrivial", 0)
+            proved.update("%s: %s" % (src["name"], n) for n in r.get("proved", []))
+            states += r.get("paths", 0)
+            transitions += r.get("steps", 0)
+            validated += r.get("validated", 0)
             solver_s += r.get("solver_s", 0)
             functions.update(r.get("functions", []))
-            samples.append(dict(engine="mir-smt", name=src["name"], verdict=v, detail=d[:300],
-                                **{k: r[k] for k in ("queries", "paths", "bounds", "solver_s", "wall_s", "lemmas", "solvers", "validation") if k in r}))
+            lem = [{"name": l["name"], "ok": l["ok"], "cvc5": l.get("cvc5"), "key": l.get("key"), "instances": l.get("count", 1)}
+                   for l in r.get("lemmas", [])][:60]
+            samples.append(dict(engine="mir-smt", name=src["name"], verdict=v, detail=d[:300], lemmas=lem,
+                                **{k: r[k] for k in ("queries", "paths", "steps", "bounds", "solver_s", "wall_s", "solvers", "cvc5_decided", "validated") if k in r}))
     ev = {
         "property_id": prop, "tier": tier, "seed": seed, "level": "model_checking",
         "coverage": {
             "evaluations": int(evaluations),
-            "distinct_nontrivial": int(nontrivial),
-            "rule": "evaluations = verification conditions / SMT queries discharged by the solver in this run; "
-                    "distinct_nontrivial = harnesses (Kani) or lemma groups (MIR->SMT) that concluded AND whose "
-                    "non-vacuity witness (kani::cover! satisfied, vacuity twin violated, or a satisfiable path "
-                    "query reaching the assertion) was confirmed in this run",
+            "distinct_nontrivial": int(nontrivial + len(proved)),
+            "rule": "evaluations = SMT queries / verification conditions discharged by the solver in this run; "
+                    "distinct_nontrivial = distinct lemmas (by name, per lemma group) that were decided 'holds' on at least one "
+                    "feasible symbolic path in this run, plus Kani harnesses that concluded with a satisfied cover / violated vacuity twin; "
+                    "states = symbolic paths explored to completion (MIR engine) + Kani harnesses; transitions = MIR basic blocks "
+                    "symbolically executed + Kani verification conditions",
+            "states": int(max(states, 0)),
+            "transitions": int(max(transitions, 0)),
+            "traces_validated_against_impl": int(validated),
             "samples": samples,
             "exhaustive": False,
             "explanation": "bounded symbolic execution of the real code; every verdict is the solver's over all "
